@@ -467,7 +467,13 @@ func GenConc(seed uint64, prop, target string) (*Scenario, map[string]int64) {
 	var shared []int
 	for s := 0; s < nshared; s++ {
 		sg.nextID++
-		sg.sc.Prelude = append(sg.sc.Prelude, Call{ID: sg.nextID, Fn: FnDecodePatch, Name: "DecodePatch", A: sg.pick(sg.pats), Slot: s})
+		pc := Call{ID: sg.nextID, Fn: FnDecodePatch, Name: "DecodePatch", A: sg.pick(sg.pats), Slot: s}
+		if prop != "C04" && r.P(60) {
+			// the Patch every task shares is a hand-assembled one with a damaged raw message
+			pc.Corrupt = 1 + r.Intn(60)
+			sg.faults["hand_assembled_shared_patch"]++
+		}
+		sg.sc.Prelude = append(sg.sc.Prelude, pc)
 		shared = append(shared, s)
 	}
 	for t := 0; t < ntasks; t++ {
